@@ -299,6 +299,12 @@ func c06Block(o *fw.Obs, rng *rand.Rand) {
 			return
 		}
 	}
+	// what the writer writes, the validator of the receive path accepts (rows and row count it reports included)
+	if verr := objects.ValidateBlockBytes(stored); verr != nil {
+		last := blk[len(blk)-1]
+		o.Violate("valid-block-rejected/ValidateBlockBytes/"+class, "a block written by WriteBlockTo (%d rows, last cell %q) is refused by ValidateBlockBytes: %v", len(blk), last[len(last)-1], verr)
+		return
+	}
 	// independent encoding must agree byte for byte
 	ind := make([]byte, 4)
 	ind[0], ind[1], ind[2], ind[3] = byte(len(blk)>>24), byte(len(blk)>>16), byte(len(blk)>>8), byte(len(blk))
